@@ -389,3 +389,107 @@ def run(exe, seed, thorough, scale=1.0):
                 "check_cases_all_good": sum(1 for c in cases if c["kind"] == "check" and not c["nbad"])}
     finally:
         w.cleanup()
+
+
+# ---------------------------------------------------------------------------------------------
+# C13 end-to-end: real files with hostile names -> b3sum [--tag] -> lines -> parse / --check
+# ---------------------------------------------------------------------------------------------
+NAME_PIECES = [b" ", b"  ", b") = ", b"BLAKE3 (", b"\\", b"\\\\", b"\r", b"\n", b"\\n", b"\\r", b"a", b"b", b"dir", b"\xc3\xa9", b"\xe5\x90\xa6",
+               b"\xf0\x9f\x98\x80", b"\xff", b"\xc3", b"\xef\xbf\xbd", b"=", b"(x)", b"-", b"+", b"'", b"\"", b"*", b"\t"]
+
+
+def representable(name):
+    try:
+        s = name.decode("utf-8")
+    except UnicodeDecodeError:
+        return False
+    return "�" not in s and "\0" not in s
+
+
+def run_names(b3sum, b3mon, seed, thorough, scale=1.0):
+    rnd = random.Random(seed * 31337 + 13)
+    d = tempfile.mkdtemp(prefix="verif-c13-").encode()
+    violations = []
+    evaluations = 0
+    classes = set()
+    samples = []
+    try:
+        nbatches = int((600 if thorough else 60) * scale)
+        fileno = 0
+        for bi in range(nbatches):
+            names = []
+            sub = os.path.join(d, b"b%d" % bi)
+            os.mkdir(sub)
+            for _ in range(rnd.randrange(1, 9)):
+                n = b"".join(rnd.choice(NAME_PIECES) for _ in range(rnd.randrange(1, 7)))
+                if n in (b".", b"..") or n in names or len(n) > 200 or n.startswith(b"-"):
+                    continue
+                names.append(n)
+            if not names:
+                continue
+            contents = {}
+            ok = []
+            for n in names:
+                fileno += 1
+                data = b"hostile name file %d" % fileno
+                try:
+                    with open(os.path.join(sub, n), "wb") as f:
+                        f.write(data)
+                except OSError:
+                    continue
+                contents[n] = data
+                ok.append(n)
+            names = ok
+            if not names:
+                continue
+            tag = rnd.random() < 0.5
+            argv = [b3sum.encode()] + ([b"--tag"] if tag else []) + names
+            env = dict(os.environ)
+            env["RUST_BACKTRACE"] = "0"
+            p = subprocess.run(argv, cwd=sub, stdout=subprocess.PIPE, stderr=subprocess.PIPE, env=env)
+            evaluations += 1
+            form = "tag" if tag else "plain"
+            lines = p.stdout.split(b"\n")
+            if lines and lines[-1] == b"":
+                lines.pop()
+            if p.returncode != 0 or len(lines) != len(names):
+                violations.append(("C13/cli/print/line-count", "b3sum %s on names %r exited %s and printed %d lines for %d files: %r" % (form, names, p.returncode, len(lines), len(names), p.stdout[:300])))
+                continue
+            # in-process parse of exactly what was printed
+            q = subprocess.run([b3mon, "parse-stdin"], input=p.stdout, stdout=subprocess.PIPE, stderr=subprocess.PIPE)
+            parsed = q.stdout.decode("utf-8", "replace").splitlines()
+            if len(parsed) != len(names):
+                violations.append(("C13/cli/parse/line-count", "parse-stdin returned %d results for %d lines" % (len(parsed), len(names))))
+                continue
+            nrep = 0
+            for n, line, res in zip(names, lines, parsed):
+                evaluations += 1
+                rp = representable(n)
+                nrep += rp
+                feat = "two-spaces" if b"  " in n else "paren-eq" if b") = " in n else "tag-prefix" if n.startswith(b"BLAKE3 (") else "needs-escape" if (b"\\" in n or b"\n" in n or b"\r" in n) else "other"
+                classes.add("%s/%s/%s" % (form, feat, "rep" if rp else "unrep"))
+                want_hash = b3spec.xof(contents[n]).hex()
+                if res.startswith("PANIC"):
+                    violations.append(("C13/cli/parse/panic", "line %r printed for name %r makes the parser panic: %s" % (line, n, res)))
+                elif res.startswith("OK "):
+                    _, phex, hhex, esc = res.split()
+                    if not rp:
+                        violations.append(("C13/cli/%s/unrepresentable-accepted" % form, "name %r cannot be represented but its printed line %r is accepted as path %r" % (n, line, bytes.fromhex(phex))))
+                    elif bytes.fromhex(phex) != n or hhex != want_hash:
+                        violations.append(("C13/cli/%s/%s/wrong-roundtrip" % (form, feat), "name %r printed by b3sum%s as %r parses back to path %r hash %s (file hash %s)" % (n, " --tag" if tag else "", line, bytes.fromhex(phex), hhex[:16], want_hash[:16])))
+                else:
+                    if rp:
+                        violations.append(("C13/cli/%s/%s/rejected" % (form, feat), "name %r printed by b3sum%s as %r is rejected by the check parser: %s" % (n, " --tag" if tag else "", line, res)))
+            # and the real --check on the real output
+            c = subprocess.run([b3sum, "--check"], cwd=sub, input=p.stdout, stdout=subprocess.PIPE, stderr=subprocess.PIPE, env=env)
+            evaluations += 1
+            oks = [l for l in c.stdout.split(b"\n") if l.endswith(b": OK")]
+            if c.returncode == 101:
+                violations.append(("C13/cli/check/panic", "b3sum --check panicked on b3sum's own output for names %r" % names))
+            elif len(oks) != nrep or (c.returncode == 0) != (nrep == len(names)):
+                violations.append(("C13/cli/%s/check-disagrees" % form, "b3sum%s | b3sum --check over names %r: %d OK lines (expected %d representable), exit %s; stdout %r stderr %r" % (" --tag" if tag else "", names, len(oks), nrep, c.returncode, c.stdout[:300], c.stderr[:200])))
+            if len(samples) < 3:
+                samples.append({"names": [repr(n) for n in names], "form": form, "printed": p.stdout.decode("utf-8", "replace")[:400]})
+        return {"evaluations": evaluations, "distinct": len(classes), "violations": violations, "samples": samples, "classes": sorted(classes)}
+    finally:
+        shutil.rmtree(d, ignore_errors=True)
